@@ -53,7 +53,7 @@ func Harness_C12_dispatch_forms() {
 // two dispatch forms in sequence: the function value / receiver used by the second call has itself travelled
 // through the first form's callee
 func Harness_C12_dispatch_pairs() {
-	calls := []int{ptCallDirect, ptCallFuncValue, ptCallClosure, ptCallInvoke, ptCallSwap, ptClosureCell, ptDeferStore, ptGoStore}
+	calls := []int{ptCallDirect, ptCallFuncValue, ptCallClosure, ptCallInvoke, ptCallSwap, ptClosureCell, ptDeferStore, ptGoStore, ptInvokeCallback, ptCallViaLibrary}
 	t1 := calls[verifPick("t1", 0, len(calls)-1)]
 	t2 := calls[verifPick("t2", 0, len(calls)-1)]
 	variant := verifPick("variant", 0, 1)
